@@ -23,7 +23,7 @@ RULE = (
 )
 ASSUMPTIONS = [
     "gate semantics of vlib.quantum on the harness executor; outcome forcing falls back when the forced outcome has probability < 1e-9",
-    "set_qubit_state tolerance: fidelity >= 1 - 1e-6 (angle steps are within 1e-4 rad)",
+    "set_qubit_state tolerance: fidelity >= 1 - 2e-8 (two rotations, each within 1e-4 rad of its angle, keep the state within about 0.7e-4 of the target)",
 ]
 SHARDS = {"quick": 4, "thorough": 16}
 
@@ -122,7 +122,7 @@ def check_state_prep(case) -> None:
     got = ex.sv.ordered([phys_of(ex, conn, qs[0])])
     want = np.array([math.cos(theta / 2), np.exp(1j * phi) * math.sin(theta / 2)], dtype=complex)
     f = abs(np.vdot(want, got)) ** 2
-    if f < 1 - 1e-6:
+    if f < 1 - 2e-8:
         raise Failure(f"state_prep:fidelity:{case['flavour']}", case, f"set_qubit_state(theta={theta}, phi={phi}) prepared a state with fidelity {f:.8f}")
 
 
